@@ -846,4 +846,6 @@ def run(run: Run):
     run.floor('C15.R5', 4)
     run.floor('C15.R6', 10)
     run.floor('C15.R7', 20)
+    from .common import shared_mechanisms as _shared
+    _shared(run, 'C15', 9, ['stored-values', 'references-minted', 'fresh-parse'])
     return INFO
